@@ -340,8 +340,8 @@ def judge(run, cases, model, cres, exe, drv, limit):
             for r in c["rt"]:
                 run.bump("export:" + ("ok" if " ok" in r else "fails" if "export-fails" in r else "FAIL"))
                 mm = re.match(r"rt f=(\d+) (export-fails|ok n=)", r)
-                if mm and int(mm.group(1)) < 16:
-                    fl, failed = int(mm.group(1)), mm.group(2) == "export-fails"
+                if mm and int(mm.group(1)) % 1000 < 16:
+                    fl, failed = int(mm.group(1)) % 1000, mm.group(2) == "export-fails"
                     v1_must_fail = v1_depths or v1_multi
                     if failed != bool((fl & 4) and (v1_depths or (v1_multi and not (fl & 8)))):
                         run.violation("export-v1-rule:f=%d" % fl, "export with flags %d %s although the description attaches NUMA nodes %s (v1 can express one NUMA node per object at a single depth only)" % (
@@ -349,6 +349,17 @@ def judge(run, cases, model, cres, exe, drv, limit):
                 if " FAIL " in r:
                     mm = re.match(r"rt f=(\d+) FAIL (\S+)", r)
                     fl, why = int(mm.group(1)), mm.group(2)
+                    variant = fl // 1000      # 0: the loaded description; k: k-th zero-attribute variant reloaded from XML
+                    if variant:
+                        fl = fl % 1000
+                        desc_v = "%s [variant %d: %s rewritten to 0 in the XML export, reloaded]" % (
+                            desc, variant, {1: "every local_memory", 2: "the first local_memory", 3: "every second local_memory", 4: "every local_memory and cache_size"}[variant])
+                        if why == "structure-numa-memory-pairing":
+                            why = "structure"
+                        if not ((why == "reimport-rejected" and (fl & 1) and "Cache:" in r) or (why == "not-fixpoint" and (fl & 13))):
+                            run.violation("roundtrip-zero-attrs:%s:f=%d" % (why, fl), "export/import round trip fails (%s, flags %d) for a topology with attributes the parser cannot produce: %s" % (why, fl, desc_v[:300]),
+                                          replay_text(desc, "mode: lz\n" + r))
+                            continue
                     if why == "reimport-rejected" and (fl & 1) and "Cache:" in r:
                         run.violation("roundtrip-noextended-cache-reimport", "export with NO_EXTENDED_TYPES prints caches as 'Cache:n', which hwloc_type_sscanf of this version rejects: the export does not load back",
                                       replay_text(desc, r))
@@ -609,7 +620,7 @@ def wf_pass(run, cases, model, items):
     sel = []
     for idx, mode, d in items:
         m = model.get(str(idx))
-        if mode != "l" or not m or not m["info"] or int(m["info"]["sum"]) > (250 if run.tier == "quick" else 400):
+        if not mode.startswith("l") or not m or not m["info"] or int(m["info"]["sum"]) > (250 if run.tier == "quick" else 400):
             continue
         if any(ch in d for ch in "\n\r") or d != d.strip() or not d:
             continue
@@ -660,7 +671,7 @@ def check(run, replay=None):
         mm = re.search(r"^desc-hex: ([0-9a-f]*)$", txt, re.M)
         cases = [("replay", bytes.fromhex(mm.group(1)).decode("latin1"))] if mm else []
         mw = re.search(r"^mode: (l\S+)$", txt, re.M)
-        if mm and mw:
+        if mm and mw and mw.group(1) != "lz":
             FW[cases[0][1]] = mw.group(1)
     else:
         cases = make_cases(run)
@@ -669,7 +680,7 @@ def check(run, replay=None):
     model = run_model(drv, [(str(i), d) for i, (k, d) in enumerate(cases)], fixed=os.environ.get("HWLOC_VERIF_C07_VARIANT") == "fixed")
     for e in model.pop("__errors__", []):
         run.violation("model-driver-crash", "model driver failed: " + e[-200:], e, no_input=True)
-    items, iso = [], []
+    items, iso, nz = [], [], 0
     for idx, (k, d) in enumerate(cases):
         m = model.get(str(idx))
         if m is None or m["set"] is None:
@@ -680,6 +691,8 @@ def check(run, replay=None):
                 iso.append((idx, "p", d))
             continue
         mode = "l" if loadable(m, limit) else "p"
+        if mode == "l" and int(m["info"]["sum"]) <= 600 and (k in ("corpus", "attached-spec", "replay") or re.search(r"(?i)\[|n[uo]|size=", d)) and nz < (260 if run.tier == "quick" else 6000):
+            mode, nz = "lz", nz + 1     # + zero-attribute variants through XML (harness zero_variants)
         if mode == "p" and m["set"] == "rc=0" and k == "corpus" and any(" type=15 " in l for l in m["L"]):
             iso.append((idx, "l", d))     # the regression case of the MemCache-level abort
             continue
@@ -697,7 +710,7 @@ def check(run, replay=None):
     env_pass(run, cases, model, cres, exe)
     wf_pass(run, cases, model, items)
     run.cov["rule"] = "one case = one description string; non-trivial = accepted by the model; loaded and compared object-by-object when <= %d objects" % limit
-    run.cov["loaded_and_compared"] = sum(1 for i, m_, d in items if m_ == "l")
+    run.cov["loaded_and_compared"] = sum(1 for i, m_, d in items if m_.startswith("l"))
     run.assumptions += [
         "calloc/malloc succeed for the sizes reached (descriptions whose totals make the index arrays huge are parsed by the model only)",
         "Group levels are not compared (the core merges structure-less Groups and adds Groups above NUMA levels); level order among objects with identical cpusets is the core's, not the description's",
